@@ -109,6 +109,51 @@ def ob_backtracking_step(n, mode, iters, hist, maxh=2):
                          "max_iteration beyond the unrolled bound (one inductive step from an arbitrary state covers any length)"])
 
 
+def ob_option_untouched(n, algo_name):
+    """optimising leaves the option object handed in unchanged (defaults derived during the run -- mu, the start point -- are not
+    written back into it): the same option can be re-used for a problem of another size"""
+    def run(I):
+        import quara.minimization_algorithm.projected_gradient_descent_backtracking as B
+        import quara.minimization_algorithm.projected_gradient_descent_with_momentum as M
+        import quara.minimization_algorithm.projected_fast_iterative_shrinkage_thresholding_algorithm as F
+        x0 = vec_of(I, "x", n)
+        loss = UFLoss(n)
+        P = uf_proj(n)
+        if algo_name == "backtracking":
+            algo, opt = B.ProjectedGradientDescentBacktracking(func_proj=P), B.ProjectedGradientDescentBacktrackingOption(var_start=x0, max_iteration_optimization=1)
+        elif algo_name == "momentum":
+            algo, opt = M.ProjectedGradientDescentWithMomentum(func_proj=P), M.ProjectedGradientDescentWithMomentumOption(var_start=x0, max_iteration_optimization=1)
+        else:
+            algo, opt = F.ProjectedFastIterativeShrinkageThresholdingAlgorithm(func_proj=P), F.ProjectedFastIterativeShrinkageThresholdingAlgorithmOption(var_start=x0, max_iteration_optimization=1)
+        before = {k: v for k, v in vars(opt).items() if not isinstance(v, np.ndarray)}
+        algo.set_from_loss(loss)
+        algo.set_from_option(opt)
+        import quara.minimization_algorithm.projected_gradient_descent_backtracking as BB
+        orig = BB.ProjectedGradientDescentBacktracking._is_doing_for_alpha
+        cnt = {"n": 0}
+
+        def bounded(self, x_prev, y_prev, alpha, gamma_, lf):
+            r = orig(self, x_prev, y_prev, alpha, gamma_, lf)
+            if r:
+                cnt["n"] += 1
+                if cnt["n"] > 2:
+                    raise core.Outside("alpha halving deeper than the explored bound")
+            return r
+        BB.ProjectedGradientDescentBacktracking._is_doing_for_alpha = bounded
+        try:
+            quiet(algo.optimize, loss, None, opt)
+        finally:
+            BB.ProjectedGradientDescentBacktracking._is_doing_for_alpha = orig
+        after = {k: v for k, v in vars(opt).items() if not isinstance(v, np.ndarray)}
+        out = []
+        for k in sorted(before):
+            same = (before[k] is after.get(k)) or (before[k] == after.get(k))
+            out.append(Holds(f"option attribute {k} unchanged by optimize", bool(same) if not isinstance(same, SBool) else same))
+        out.append(Holds("no attribute added to the option", sorted(before) == sorted(after)))
+        return out
+    return FnOb(reals("x", n, -2.0, 2.0), run, max_paths=200, expect_nonlinear=True, tv_points=0)
+
+
 def ob_momentum_rule(n, mode, iters):
     """ProjectedGradientDescentWithMomentum: moment' = zeta*moment - gamma*g(x), x' = P(x + moment'), gamma = 1/(2 r sqrt(n)); zeta
     schedule driven by ceil(log10 f) (uninterpreted)"""
@@ -173,6 +218,7 @@ def ob_fista_rule(n, mode, iters):
 
 def obligations(tier):
     out = []
+    out += specs("C11.option_untouched", [{"n": 2, "algo_name": a} for a in ("backtracking", "momentum", "fista")], ob_option_untouched, 1)
     for n in tiers(tier, [2], [2, 3]):
         for mode in MODES:
             out += specs("C11.backtracking", [{"n": n, "mode": mode, "iters": 1, "hist": True, "maxh": tiers(tier, 2, 4)}], ob_backtracking_step, 5)
